@@ -115,7 +115,7 @@ def explore_many(rep, modname, plan, workers, seed, levels=2):
             frontier = nxt
             if len(frontier) >= 8 * workers:
                 break
-        res['samples'].append(dict(harness=cfg['name'], kind=cfg['kind'],
+        res['samples'].append(dict(harness=cfg['name'], kind=cfg.get('kind'),
                                    lines=cfg.get('lines'), bound=bound,
                                    subtrees=len(frontier)))
         rep.merge_counts(res)
